@@ -12,6 +12,9 @@ that storage.notifier exists) with the link to the notify server in every state 
 not open yet (the first seconds after start-up), refused, opening in the middle of the session, lost (drain() raises), slow.
 What becomes of the announcement to the sibling workers is not the submitter's business: the OK it gets must still say what
 happened to its event.
+SHUTDOWN AND RESTART (shutdown_restart): the acknowledgement must also survive the graceful stop of the relay that follows it at once
+(close / `async with` / ASGI shutdown hook), whatever the LMDB writer still has queued at that moment: a fresh storage object on the
+same path has every acknowledged event and no refused one.
 """
 import asyncio
 import copy
@@ -517,6 +520,267 @@ def inflight_duplicate(report, drv, rng, tag):
         st.close()
 
 
+CLOSE_MODES = ("close", "async-with", "asgi-shutdown-hook")
+
+
+async def _talk(storage, messages, until_eose=None):
+    """one websocket connection played to the real web.start_client: the messages in order, then (once the EOSE of subscription
+    `until_eose` has been sent, if one is named) the client hangs up.  Returns the frames the relay sent."""
+    import logging
+    import falcon
+    from nostr_relay import web, rate_limiter
+
+    inbox = list(messages)
+    frames = []
+    eose = asyncio.Event()
+
+    async def ws_recv():
+        if inbox:
+            return json.dumps(inbox.pop(0))
+        if until_eose is not None:
+            try:
+                await asyncio.wait_for(eose.wait(), 20)
+            except asyncio.TimeoutError:
+                pass
+        raise falcon.WebSocketDisconnected()
+
+    async def ws_send(text):
+        f = json.loads(text)
+        frames.append(f)
+        if isinstance(f, list) and f[:2] == ["EOSE", until_eose]:
+            eose.set()
+
+    async def ws_close(code=1000):
+        pass
+
+    await web.start_client(storage, ws_send, ws_recv, ws_close, logging.getLogger("nostr_relay.verif.web"), message_timeout=3600,
+                           rate_limiter=rate_limiter.NullRateLimiter(), remote_addr="1.2.3.4")
+    return frames
+
+
+def shutdown_restart(report, backend, rng, keys, tag, close_mode, contention, generations, burst):
+    """SHUTDOWN AND RESTART.  What an OK frame says must still be true after the relay process has been stopped gracefully and
+    started again on the same database: every event acknowledged with OK=true is retrievable from a *fresh* storage object
+    opened on the same path (get_event and a REQ by ids through start_client; a replaceable event may have been superseded by a
+    newer acknowledged version of its address), every event that was only ever refused is absent, and a resubmission of a stored
+    event is still a duplicate in the next life of the relay.
+    A life of the relay = set-up, a burst of EVENT messages through the real start_client, and the graceful stop
+    (close_mode: storage.close() / leaving `async with storage` / the ASGI shutdown hook SetupMiddleware.process_shutdown) issued
+    right after the last OK frame, with nothing waiting for the writer to go idle.  On LMDB the real writer thread runs and the
+    state of its backlog at the stop is the scenario's second axis (contention): `none` (whatever the thread has managed by
+    then), or the whole burst still queued because another writer — a sibling worker's writer thread, a bulk load — holds the
+    LMDB write lock, which it gives up just before the stop begins or while the stop is in progress.
+    The bursts are 6-16 messages (more in the thorough tier): far more than any writer can have in hand at once, so that
+    whatever the stop does with "the rest of the queue" concerns several acknowledged events."""
+    import shutil
+    import threading
+    from lib import proto
+    from lib.sqlimpl import SQLImpl
+
+    common.setup_paths()
+    from nostr_relay.config import Config
+    from nostr_relay import web
+    from nostr_relay.storage import kv, db
+
+    validators = ["nostr_relay.validators.is_signed"]
+    path = common.scratch_dir("nrc06restart-")
+    loop = asyncio.new_event_loop()
+    asyncio.set_event_loop(loop)
+    Config.service_privatekey = "07" * 32
+    Config.authentication = {}
+    Config.output_validator = None
+    kv.analyze = lambda *a, **k: None
+    asyncio.sleep = proto._fast_sleep       # the handler's throttle after a refused event, as in lib.proto.Relay
+
+    def fresh_storage():
+        if backend == "kv":
+            Config.storage = {"class": "nostr_relay.storage.kv.LMDBStorage", "path": path, "validators": list(validators), "map_size": 64 << 20}
+            return kv.LMDBStorage(dict(Config.storage))
+        Config.storage = {"sqlalchemy.url": "sqlite+aiosqlite:///" + path + "/relay.sqlite3", "validators": list(validators)}
+        return db.DBStorage(dict(Config.storage))
+
+    class OtherWriter(threading.Thread):
+        """holds the LMDB write lock (begin and abort in one thread) until told to let go"""
+
+        def __init__(self, env):
+            super().__init__(daemon=True)
+            self.env, self.have, self.release = env, threading.Event(), threading.Event()
+
+        def run(self):
+            txn = self.env.begin(write=True)
+            self.have.set()
+            self.release.wait(30)
+            txn.abort()
+
+    by_id, labels, acked, lives = {}, {}, set(), []
+    counter = [0]
+
+    def signed(sk, kind, content, tags, created_at):
+        from aionostr.event import Event
+
+        ev = Event(pubkey=sk.public_key.hex(), content=content, kind=kind, tags=tags, created_at=created_at)
+        ev.sign(sk.hex())
+        return ev.to_json_object()
+
+    def make_burst(n):
+        out = []
+        for _ in range(n):
+            counter[0] += 1
+            sk = rng.choice(keys)
+            kind = rng.choice([1, 1, 1, 7, 10002, 30000])
+            tags = [["d", rng.choice(["a", "b"])]] if kind == 30000 else []
+            if rng.random() < 0.3:
+                tags.append(["t", rng.choice(["x", "y"])])
+            r = rng.random()
+            label = "valid"
+            if r < 0.07:
+                tags.append(["t", "L" * 600])       # LMDB cannot store it (refused at the door), SQL can
+                label = "long-tag"
+            # created_at strictly increasing over the whole scenario: of two versions of one address the later submitted is the newer
+            ev = signed(sk, kind, "%s life %d note %d" % (tag, len(lives), counter[0]), tags, T0 + 1000 + counter[0])
+            if 0.07 <= r < 0.14:
+                ev["sig"] = "00" * 64
+                label = "bad-sig"
+            elif 0.14 <= r < 0.2:
+                ev["content"] += "!"
+                label = "tampered"
+            out.append((label, ev))
+            again = [e for l, e in out + [x for life in lives for x in life] if l == "valid" and e["kind"] in (1, 7)]
+            if again and rng.random() < 0.2:
+                out.append(("resubmission", copy.deepcopy(rng.choice(again))))
+        return out
+
+    def superseded(ev):
+        a = address(ev)
+        return a is not None and any(i != ev["id"] and address(by_id[i]) == a and by_id[i]["created_at"] > ev["created_at"] for i in acked)
+
+    def payload():
+        return {"backend": backend, "case": "shutdown-restart", "close": close_mode, "writer_backlog": contention,
+                "lives": [[[l, e] for l, e in life] for life in lives], "acknowledged": sorted(acked)}
+
+    async def look_up(storage, stage):
+        """the oracle: acknowledged <=> there, from this (freshly opened) storage object"""
+        ids = sorted(by_id)
+        if not ids:
+            return
+        got, served, answered = set(), set(), True
+        for i in ids:
+            if await storage.get_event(i) is not None:
+                got.add(i)
+        for at in range(0, len(ids), 20):
+            frames = await _talk(storage, [["REQ", "byid", {"ids": ids[at:at + 20]}]], until_eose="byid")
+            served |= {f[2]["id"] for f in frames if isinstance(f, list) and f and f[0] == "EVENT" and f[1] == "byid"}
+            answered = answered and ["EOSE", "byid"] in frames
+        due = [i for i in ids if i in acked and not superseded(by_id[i])]
+        lost = [i for i in due if i not in got]
+        unserved = [i for i in due if i in got and i not in served]
+        ghosts = [i for i in ids if i not in acked and (i in got or i in served)]
+        if lost:
+            report.property_failure("%s: %d of %d event(s) acknowledged with OK=true are not stored %s (stop: %s, writer backlog: %s): %s"
+                                    % (backend, len(lost), len(due), stage, close_mode, contention, ", ".join(i[:8] for i in lost)), payload(), None)
+        if unserved and answered:
+            report.property_failure("%s: %d event(s) acknowledged with OK=true are stored but not served to a REQ by ids %s: %s"
+                                    % (backend, len(unserved), stage, ", ".join(i[:8] for i in unserved)), payload(), None)
+        if ghosts:
+            report.property_failure("%s: %d event(s) that were only ever refused (%s) are there %s" % (
+                backend, len(ghosts), ", ".join(sorted({labels.get(i, "?") for i in ghosts})), stage), payload(), None)
+        if not answered:
+            report.count("restart_req_by_ids_without_eose_" + backend)
+        report.count("restart_lookups_of_acknowledged_events", len(due))
+        report.count("restart_lookups_of_refused_events", len([i for i in ids if i not in acked]))
+
+    async def one_life(n_life, batch):
+        """batch None: the last life, which only looks"""
+        storage = fresh_storage()
+        state = {"other": None}
+
+        async def inside():
+            try:
+                await look_up(storage, "after %d graceful stop(s) and restart" % n_life if n_life else "in a new database")
+                if batch is None:
+                    return
+                lives.append(batch)
+                if backend == "kv" and contention != "none":
+                    state["other"] = OtherWriter(storage.db)
+                    state["other"].start()
+                    if not state["other"].have.wait(10):
+                        raise RuntimeError("harness: could not take the LMDB write lock")
+                frames = await _talk(storage, [["EVENT", e] for _, e in batch])
+                oks = [f for f in frames if isinstance(f, list) and f and f[0] == "OK"]
+                for _, e in batch:
+                    by_id.setdefault(e["id"], e)
+                if len(oks) != len(batch):
+                    report.property_failure("%s: %d OK frames for %d EVENT messages" % (backend, len(oks), len(batch)), payload(), None)
+                    return
+                for (label, e), f in zip(batch, oks):
+                    ok = bool(f[2])
+                    labels.setdefault(e["id"], label)
+                    if label == "resubmission" and ok and e["id"] in acked:
+                        report.property_failure("%s: a resubmitted event that had been acknowledged (life %d of the relay) was acknowledged as new again"
+                                                % (backend, n_life), payload(), None)
+                    if label == "valid" and not ok:
+                        report.property_failure("%s: a well-formed, validly signed event was refused: %r" % (backend, f[3]), payload(), None)
+                    if ok:
+                        acked.add(e["id"])
+                    report.count("restart_submission_%s_%s" % (label, "ok" if ok else "refused"))
+                # the stop follows at once; the other writer lets go now, or a moment after the stop has begun
+                if state["other"] is not None:
+                    if contention == "lock-released-during-stop":
+                        threading.Timer(0.15, state["other"].release.set).start()
+                    else:
+                        state["other"].release.set()
+            except BaseException:
+                if state["other"] is not None:
+                    state["other"].release.set()
+                raise
+
+        try:
+            if close_mode == "async-with":
+                async with storage:
+                    await inside()
+            else:
+                await storage.setup()
+                try:
+                    await inside()
+                finally:
+                    if close_mode == "close":
+                        await storage.close()
+                    else:
+                        await web.SetupMiddleware(storage).process_shutdown({}, {})
+        finally:
+            if state["other"] is not None:
+                state["other"].release.set()
+                state["other"].join(10)
+            try:
+                await storage.stat_collector.stop()       # no stop path of the relay ends the statistics task
+            except Exception:
+                pass
+
+    try:
+        if backend == "sql":
+            SQLImpl(validators=list(validators), url="sqlite+aiosqlite:///" + path + "/relay.sqlite3", loop=loop).close()   # the schema
+        for n_life in range(generations):
+            loop.run_until_complete(one_life(n_life, make_burst(rng.randint(*burst))))
+        loop.run_until_complete(one_life(generations, None))
+        report.case((backend, "shutdown-restart", close_mode, contention, tag, json.dumps(sorted(by_id))), nontrivial=True,
+                    sample={"backend": backend, "case": "shutdown-restart", "stop": close_mode, "writer_backlog": contention,
+                            "lives": [[l for l, _ in life] for life in lives], "acknowledged": len(acked)})
+        report.count("shutdown_restart_%s_stop_%s" % (backend, close_mode))
+        report.count("shutdown_restart_%s_writer_backlog_%s" % (backend, contention))
+    finally:
+        asyncio.sleep = proto._real_sleep
+        try:
+            pending = [t for t in asyncio.all_tasks(loop) if not t.done()]
+            for t in pending:
+                t.cancel()
+            if pending:
+                loop.run_until_complete(asyncio.gather(*pending, return_exceptions=True))
+            loop.close()
+        except Exception:
+            pass
+        shutil.rmtree(path, ignore_errors=True)
+
+
 def run(report, tier, seed):
     rng = random.Random(seed)
     drv = common.Driver()
@@ -532,7 +796,11 @@ def run(report, tier, seed):
         "also resubmitted while its first copy is being written (another writer holds the write lock); the same sessions (plus a stored event, "
         "its resubmission and an ephemeral event) in a relay set up as one worker of several (gunicorn workers > 1 / run_notifier: the real "
         "NotifyClient created by setup()), with the link to the notify server up / not open yet / refused / opening mid-session / lost "
-        "(drain raises) / slow; non-trivial = the session contains something other than plain valid events")
+        "(drain raises) / slow; SHUTDOWN AND RESTART on both backends (file-backed): bursts of 6-16 EVENT messages through start_client, then at once "
+        "the graceful stop (storage.close() / leaving `async with storage` / the ASGI shutdown hook), on LMDB with the real writer thread and its "
+        "backlog untouched because another writer holds the write lock until just before / during the stop; a fresh storage object on the same "
+        "path must have every acknowledged event (get_event, REQ by ids) and none of the refused ones, over two or three lives; "
+        "non-trivial = the session contains something other than plain valid events")
     report.assumptions += ["quiescence: the loop is settled and the LMDB writer drained after every message"]
     try:
         for i in range(2 if tier == "quick" else 30):
@@ -548,6 +816,15 @@ def run(report, tier, seed):
             for mode in WorkerLink.MODES:
                 for backend in ("sql", "kv"):
                     run_session(report, drv, backend, rng, keys, "w%d" % i, link=WorkerLink(rng, mode))
+        # shutdown and restart: every way of stopping x (LMDB) the state of the writer's backlog at the stop; quick: two lives of
+        # 6-16 messages each and a last one that only looks, thorough: three lives of 6-40, ten rounds
+        for i in range(1 if tier == "quick" else 10):
+            for close_mode in CLOSE_MODES:
+                for backend, contention in (("kv", "lock-released-during-stop"),
+                                            ("kv", rng.choice(["none", "lock-released-before-stop"])),
+                                            ("sql", "none")):
+                    shutdown_restart(report, backend, rng, keys, "r%d" % i, close_mode, contention,
+                                     generations=2 if tier == "quick" else 3, burst=(6, 16) if tier == "quick" else (6, 40))
     finally:
         drv.close()
 
